@@ -193,6 +193,68 @@ def split_block_heads(lines, counts):
     return out
 
 
+_FOR = re.compile(r'^(\s*)for (.+?) in (.+)$')
+
+
+def rewrite_for_loops(lines, counts):
+    """T4: `for` loops over something other than a range (Verus supports ranges natively).
+       T4b  for x in X.iter_mut() { B }   ->  for x_i in 0..X.len() { let x = &mut X[x_i]; B }
+       T4a  for p in IT { B }  /  for p in &mut IT { B }
+               ->  let mut p_iter = IT;  (omitted for `&mut IT`)  loop { match <it>.next() { Some(p) => { B } None => { break; } } }
+            (Rust's own desugaring of a `for` over an Iterator)"""
+    out = []
+    i = 0
+    n = len(lines)
+    uid = 0
+    while i < n:
+        txt, no = lines[i]
+        mo = _FOR.match(txt)
+        if not mo or txt.lstrip().startswith('//') or i + 1 >= n or lines[i + 1][0] != mo.group(1) + '{':
+            out.append((txt, no))
+            i += 1
+            continue
+        ind, pat, it = mo.group(1), mo.group(2), mo.group(3).strip()
+        if re.match(r'^[^.]*\.\.[^.]*$', it) and '..' in it and '.iter' not in it and 'new(' not in it:
+            out.append((txt, no))   # a range
+            i += 1
+            continue
+        # body: lines up to the matching `}` at the same indentation
+        j = i + 2
+        while j < n and lines[j][0] != ind + '}':
+            j += 1
+        body = lines[i + 2:j]
+        name = re.sub(r'\W', '_', pat)
+        if it.endswith('.iter_mut()'):
+            coll = it[:-len('.iter_mut()')]
+            counts.bump('T4b_iter_mut_loop')
+            out.append(('%sfor %s_i in 0..%s.len()' % (ind, name, coll), no))
+            out.append((ind + '{', lines[i + 1][1]))
+            out.append(('%s    let %s = &mut %s[%s_i];' % (ind, pat, coll, name), no))
+            out.extend(body)
+            out.append((ind + '}', lines[j][1] if j < n else no))
+        else:
+            counts.bump('T4a_iterator_loop')
+            if it.startswith('&mut '):
+                itexpr = it[len('&mut '):]
+            else:
+                out.append(('%slet mut %s_iter = %s;' % (ind, name, it), no))
+                itexpr = '%s_iter' % name
+            out.append((ind + 'loop', no))
+            out.append((ind + '{', lines[i + 1][1]))
+            out.append(('%s    match %s.next() {' % (ind, itexpr), no))
+            out.append(('%s        Some(%s) => {' % (ind, pat), no))
+            for t, ln in body:
+                out.append((('        ' + t) if t.strip() else t, ln))
+            out.append(('%s        }' % ind, no))
+            out.append(('%s        None => {' % ind, no))
+            out.append(('%s            break;' % ind, no))
+            out.append(('%s        }' % ind, no))
+            out.append(('%s    }' % ind, no))
+            out.append((ind + '}', lines[j][1] if j < n else no))
+        i = j + 1
+    return out
+
+
 _WCAP = re.compile(r'^(\s*)let mut (\w+) = Vec::with_capacity\((.+)\);$')
 
 
@@ -275,6 +337,7 @@ def transform(text, counts, select=None):
     lines = rewrite_asserts(lines, counts)
     lines = rewrite_unchecked(lines, counts)
     lines = split_block_heads(lines, counts)
+    lines = rewrite_for_loops(lines, counts)
     lines = name_capacity_args(lines, counts)
     lines = widen_visibility(lines, counts)
     # `pub mod x;` / `mod x;` declarations: the module tree is spelled out by the overlay
